@@ -65,15 +65,20 @@ def build(c, ws, origin, unsaved):
             ops.append({"op": "open", "file": n, "text": PREFIX + files[n]})
             shift[n] = 2
     elif unsaved == "closed":
-        # every other file in scope was edited and then closed WITHOUT saving: it is the file on disk again
-        for i in scope_files(c, ws, origin):
-            n = c["files"][i]["name"]
-            if i == origin:
-                continue
+        # every other file in scope was edited and then closed WITHOUT saving: it is the file on disk again.  While the
+        # others were dirty the requesting document was already open and was asked once (whatever that request left behind
+        # about the unsaved buffers must be gone after the close)
+        ops.append({"op": "open", "file": f0["name"], "text": files[f0["name"]]})
+        others = [c["files"][i]["name"] for i in scope_files(c, ws, origin) if i != origin]
+        for n in others:
             ops.append({"op": "open", "file": n, "text": files[n]})
             ops.append({"op": "change", "file": n, "text": PREFIX + files[n]})
+        if f0["occ"]:
+            o = sorted(f0["occ"], key=lambda o: (o["line"], o["c0"]))[0]
+            for kind in ("references", "rename", "definition"):
+                ops.append({"op": "req", "file": f0["name"], "kind": kind, "line": o["line"] - 1, "char": o["c0"] + (1 if o["quoted"] else 0), "newName": NEWNAME[o["k"]]})
+        for n in others:
             ops.append({"op": "close", "file": n})
-        ops.append({"op": "open", "file": f0["name"], "text": files[f0["name"]]})
     elif unsaved:
         # every file in the request's scope is open and carries an unsaved edit at its top
         for i in scope_files(c, ws, origin):
